@@ -121,10 +121,13 @@ static bool vf_snapshot(const Db* db, VfTab& s)
   return ok;
 }
 
-// Arbitrary pre-state satisfying the representation invariant I, with the list lengths l[0..VF_NT-1]:
+// Arbitrary tables satisfying the representation invariant I.  All symbolic inputs are drawn here,
+// unconditionally and before any configuration-dependent code:
 //   _uidcol maps exactly VF_NCOL identifiers one-to-one onto 0..VF_NCOL-1, all others to -1;
-//   every role list holds live identifiers; all listed identifiers are pairwise distinct.
-static Db* vf_db_valid(const int* l)
+//   g_pool is an arbitrary enumeration of the live identifiers (pairwise distinct): the role lists of a
+//   configuration are consecutive pieces of it, so they hold live, pairwise distinct identifiers.
+static int g_pool[VF_NCOL + 1];
+static Db* vf_db_tables()
 {
   Db* db = vf_db_raw(VF_NCOL, VF_NUID, VF_NECH);
   int live = 0;
@@ -137,19 +140,24 @@ static Db* vf_db_valid(const int* l)
   }
   vf_assume(live == VF_NCOL);
   for (int i = 0; i < VF_NCOL * VF_NECH; i++) db->_array[i] = vf_finite_double();
+  for (int i = 0; i < VF_NCOL; i++)
+  {
+    int e = vf_range(0, VF_NUID - 1);
+    vf_assume(db->_uidcol[e] >= 0);
+    for (int j = 0; j < i; j++) vf_assume(g_pool[j] != e);
+    g_pool[i] = e;
+  }
+  return db;
+}
+// role lists of types 0..VF_NT-1 with lengths l[] taken from the pool (types >= VF_NT stay empty)
+static void vf_db_lists(Db* db, const int* l)
+{
+  int n = 0;
   for (int t = 0; t < VF_NT; t++)
   {
     if (l[t] > 0) db->_p[t]._r.resize(l[t], 0);
-    for (int i = 0; i < l[t]; i++)
-    {
-      int e = vf_range(0, VF_NUID - 1);
-      vf_assume(db->_uidcol[e] >= 0);
-      for (int t2 = 0; t2 <= t; t2++)
-        for (int i2 = 0; i2 < (t2 < t ? l[t2] : i); i2++) vf_assume(db->_p[t2]._r[i2] != e);
-      db->_p[t]._r[i] = e;
-    }
+    for (int i = 0; i < l[t]; i++) db->_p[t]._r[i] = g_pool[n++];
   }
-  return db;
 }
 
 // I(post) clause by clause on a snapshot; ids are passed so that every kernel names its own obligations
